@@ -275,7 +275,7 @@ Theorem rotate_impl_spec (l : list T) k :
   - zlen l <= k <= zlen l -> rotate_impl l k = Ok (rotate_list l k).
 Proof.
   intros Hk. pose proof (zlen_nonneg l) as Hn.
-  unfold rotate_impl, rot_arg_k, rot_arg_n, rot_bad, rot_noop, rot_gcd_a, rot_gcd_b, rot_ncycles.
+  unfold rotate_impl, rot_arg_k, rot_arg_n, rot_bad, rot_noop, rot_gcd_a, rot_gcd_b, rot_ncycles, rot_g.
   set (n := zlen l) in *.
   destruct (slice_check_norm n k Hn Hk) as (k' & Sc & Hk' & Ek). rewrite Sc. cbn [fst snd negb].
   assert (Er : rotate_list l k = rotate_list l k').
